@@ -59,6 +59,7 @@ SubOK ==
     /\ IF mode = "single" THEN subs[nextSub] = Graph
        ELSE subs[nextSub] \in ConnComps(Graph)
     /\ \A i \in 1..(nextSub - 1) : subs[i] \cap subs[nextSub] = {}
+    /\ T.closure => Graph = DepClosure(Targets)        \* the engine built the graph from targets
 
 AttGuard(w, c) ==
     /\ w \in DOMAIN cur /\ c \in Comp
@@ -164,7 +165,8 @@ DiagEnd ==
 
 Diagnose ==
     CASE Ev.ev = "att" -> DiagAtt
-      [] Ev.ev = "sub" -> IF ~SubOK THEN "PartitionExact.split" ELSE "sub.worker-busy"
+      [] Ev.ev = "sub" -> IF T.closure /\ Graph # DepClosure(Targets) THEN "OnlyGraphRuns.graph-is-not-the-dependency-closure-of-the-targets"
+                          ELSE IF ~SubOK THEN "PartitionExact.split" ELSE "sub.worker-busy"
       [] Ev.ev = "end" -> DiagEnd
       [] Ev.ev = "escaped" -> "NoEscape"
       [] Ev.ev = "same" -> "Confluence.runs-differ:" \o
